@@ -54,6 +54,10 @@ macro_rules! hitem {
         $($attrs)*
         #[cfg_attr(kani, kani::proof)]
         pub fn $name() {
+            // the second build of C09 (debug assertions off) must really be that build
+            if option_env!("PV_EXPECT_NODBG").is_some() {
+                assert!(!cfg!(debug_assertions), "profile override not honoured: debug assertions are still on");
+            }
             let _unit: () = $body;
             cover!(true, "end of harness reached");
         }
@@ -113,6 +117,7 @@ pub mod c08;
 pub mod c10;
 pub mod c12;
 pub mod c13;
+pub mod c16;
 pub mod c17;
 pub mod c18;
 pub mod c19;
@@ -129,6 +134,7 @@ pub fn registry() -> Vec<(&'static str, &'static str, fn())> {
     c10::register(&mut v);
     c12::register(&mut v);
     c13::register(&mut v);
+    c16::register(&mut v);
     c17::register(&mut v);
     c18::register(&mut v);
     c19::register(&mut v);
